@@ -9,9 +9,11 @@ CLAIM = dict(
          'A*Inv = Inv*A = I for the nonsingular ones, P*A = L*U; with the switch SkipZeroColumn = FALSE (the behaviour before the repair of D6) TLC exhibits the counterexample; '
          '(ii) emits every matrix as a case: Matrix<Rat>::determinant must equal the model value exactly, inverse() must be the two-sided inverse; '
          '(iii) validates recorded calls for orders 1..8 (dense, sparse, triangular, permuted triangular, permutation-like with 0-3 transpositions i.e. both parities, forced exchanges at step s, zero rows/columns, duplicated rows/columns, row sums, low rank, zero matrix, graded, scaled, tiny entries 2^-20..2^-997 beside one normal pivot candidate): '
+         'plus (hardening) an all-zero pivot column at every stage s (structural and as a dependent column), unit-modulus pivots (+-1, +-i, (3+4i)/5), exactly unit triangular / elementary / diagonal (also singular) matrices, uniform scaling 2^+-60 / 2^+-200 / 2^+-400 and balanced gradings / one tiny column (determinant called wherever ||A||_F^n and the pivot products stay representable, inverse at every scale), '
+         'and SEQUENCES on one Matrix object: determinant(), inverse(), then each of 21 mutators (IndexMut, set_row/col, swap_rows/elem, fill*, += -= *= /=, scalar +=/-=, transpose_in_place, resize), then determinant(), inverse() again, judged against the entries the object holds at that moment. '
          'Rat determinant = fraction-free determinant recomputed by TLC from the logged matrix, inverse products exactly I, matrix projected after each &self call equal to the one before; f64/Complex: |det^ - det| <= n eps\' ||A||_F^n and inverse residuals within the GEPP bound, bit patterns of the matrix unchanged.',
     note='Exact over Rat at every order (sign/parity, zero for singular input). The float determinant guard is an a-priori perturbation bound and is loose at n = 8 (it detects NaN/garbage, not a sign error on a tiny determinant there); the float reference determinant is exact integer arithmetic (cross-checked by TLC) for integer input and double-double elimination otherwise. '
-         'The left inverse residual is judged in units that carry one condition number ((X - A^-1)A), generated float inverses have kappa_inf <= 1e8. inverse() of a singular matrix is outside the property and not called. Trusted: TLC, harness projections, dd.rs.',
+         'The left inverse residual is judged in units that carry one condition number ((X - A^-1)A), it is only judged when kappa_inf <= 1e8 (never for graded input); the right residual is judged always. inverse() of a singular matrix is outside the property and not called. Trusted: TLC, harness projections, dd.rs.',
     design='4 (C02)')
 
 EXPECT = [('det', ty) for ty in ('rat', 'f64', 'cx')] + [('inverse', ty) for ty in ('rat', 'f64', 'cx')]
@@ -32,11 +34,11 @@ def check(ctx):
     cases = ctx.gen('gauss', name='gauss_c02', tier=ctx.tier + ':c02')
     ev = ctx.exec('gauss', cases)
     ctx.validate('Trace_Gauss', ev, cases, 'gauss', nontrivial=G.nontrivial)
-    cnt, w = G.census(ctx, ev, EXPECT)
+    cnt, w = G.census(ctx, ev, EXPECT, families=True)
     G.merge_worst(worst, w)
     ctx.notes.append('worst float MILLI-units observed (guard in units: 8 n^3 2^(n-1), x8 complex): %s' % dict(sorted(worst.items())))
     return ctx.finish(
-        rule='cases: (i) every matrix of the TLC scope on Rat, every 2nd/3rd also on f64 and Complex (A + iA\'), (ii) seeded matrices of order 1..8 in 27 families (nonsingular and singular) for Rat, f64, Complex. '
+        rule='cases: (i) every matrix of the TLC scope on Rat, every 2nd/3rd also on f64 and Complex (A + iA\'), (ii) seeded matrices of order 1..8 in 27 families (nonsingular and singular) for Rat, f64, Complex, (iii) special-value and extreme-magnitude families, (iv) 21 mutator sequences on one object. '
              'Each case = determinant() and, for provably nonsingular input, inverse(). Non-trivial: n >= 2. Distinct = distinct (call, element type, operand hash, outcome).',
         trusted=['TLC', 'harness/src/suites/gauss.rs projections, double-double reference determinant and residuals (harness/src/dd.rs)', 'Gauss.tla definitions (Leibniz determinant, fraction-free determinant cross-checked against it) as the reference'],
         extra=dict(worst_float_milliunits=worst))
